@@ -54,7 +54,7 @@ TraceScenario ==
   /\ l' = l + 1 /\ bad' = bad
 
 TraceSkip ==
-  /\ dead /\ e.ev # "scenario"
+  /\ dead /\ e.ev \notin {"scenario", "abort"}
   /\ UNCHANGED <<vvars, bad>> /\ Keep
   /\ l' = l + 1
 
@@ -209,10 +209,17 @@ TraceEnd ==
         \cup If(hasbuf /\ buffer # "freed", c \o ":buffer-never-released")
         \cup If(result = <<>>, "H:no-result"))
 
+\* the driver process was killed while or after running this scenario (heap corruption)
+TraceAbort ==
+  /\ e.ev = "abort"
+  /\ UNCHANGED <<vvars, sid, zst, tT, tU, cat>>
+  /\ dead' = TRUE
+  /\ Consume(If(~dead, Ledger("process-killed-while-the-conversion-or-its-clean-up-was-running")))
+
 TraceNext ==
   /\ l <= Len(Rec)
   /\ \/ TraceScenario \/ TraceSkip \/ TraceVc \/ TraceCall \/ TraceTouch \/ TraceMake \/ TraceDrop
-     \/ TraceConv \/ TraceDealloc \/ TraceRet \/ TraceEnd
+     \/ TraceConv \/ TraceDealloc \/ TraceRet \/ TraceEnd \/ TraceAbort
 
 TraceSpec == TraceInit /\ [][TraceNext]_tvars
 
